@@ -265,8 +265,12 @@ impl AdvancePositions {
 
         let num_opens = positions.len();
 
-        // Build IB: set bit at each unique position
-        let ib_num_words = text_len.div_ceil(64);
+        // Build IB: set bit at each unique position.
+        // A node can start at `text_len` itself (an empty value at the very end of the
+        // document), so allocate one extra bit beyond `text_len`, as `EndPositions`
+        // does: with `text_len % 64 == 0` that position had no word to live in and
+        // the node's position was silently dropped.
+        let ib_num_words = (text_len + 1).div_ceil(64);
         let mut ib_words = vec![0u64; ib_num_words];
 
         // Build advance bitmap: set bit when position changes
